@@ -24,11 +24,12 @@ META = {
 
 SCHEMA_TEXT = {0: None, 1: "{not json", 2: '{"type": 12}', 3: '{"type": "integer", "maximum": 10}',
                4: '{"$ref": "defs.json#/definitions/small"}',
-               5: '{"type": "integer", "maximum": 11, "exclusiveMaximum": true}'}      # a Draft 4 schema that Draft 7's metaschema rejects
+               5: '{"type": "integer", "maximum": 11, "exclusiveMaximum": true}',      # a Draft 4 schema that Draft 7's metaschema rejects
+               6: '{"$schema": "http://json-schema.org/draft-07/schema#", "type": "integer", "maximum": 11, "exclusiveMaximum": true}'}
 DEFS_TEXT = '{"definitions": {"small": {"type": "integer", "maximum": 10}}}'
 # instance states: 0 missing, 1 not JSON, 2 valid, 3 one error, 4 two errors
-INSTANCE_TEXT = {0: None, 1: "[1,", 2: "3", 3: "12", 4: "12.5"}
-NERR = {0: 1, 1: 1, 2: 0, 3: 1, 4: 2}
+INSTANCE_TEXT = {0: None, 1: "[1,", 2: "3", 3: "12", 4: "12.5", 5: "null"}
+NERR = {0: 1, 1: 1, 2: 0, 3: 1, 4: 2, 5: 1}
 
 
 class Counter:
@@ -117,14 +118,14 @@ def expected(schema_state, states, pretty, use_stdin):
 
 def run(schema_state, n, pretty, mode="plain"):
     custom = mode == "custom-format"
-    explicit = mode in ("explicit-validator", "explicit-validator-d4-schema")
+    explicit = mode in ("explicit-validator", "explicit-validator-d4-schema", "explicit-validator-other-dialect")
     use_stdin = mode == "stdin"
 
     def pre(states):
         if len(states) != n:
             return False
         for s in states:
-            if not (0 <= s < 5):
+            if not (0 <= s < 6):
                 return False
         return True
 
@@ -139,7 +140,7 @@ def run(schema_state, n, pretty, mode="plain"):
             lib = 0
             for s in states:
                 if s >= 2:
-                    lib_schema = json.loads(SCHEMA_TEXT[5]) if schema_state == 5 else {"type": "integer", "maximum": 10}
+                    lib_schema = json.loads(SCHEMA_TEXT[schema_state]) if schema_state in (5, 6) else {"type": "integer", "maximum": 10}
                     lib += len(list(cls(lib_schema).iter_errors(json.loads(INSTANCE_TEXT[s]))))
                 else:
                     lib += 1
@@ -192,11 +193,11 @@ def conditions(tier, seed, active):
                 tags = ["exit1"] if ss < 3 else ["exit0", "exit1"]
                 out.append(dict(id="run/schema%d/%s/n%d" % (ss, "pretty" if pretty else "plain", n), module=__name__, factory="run",
                                 params=dict(schema_state=ss, n=n, pretty=pretty), timeout=900, tags=tags, witness=tags if n <= 2 else []))
-    for mode in ("custom-format", "explicit-validator", "stdin", "explicit-validator-d4-schema"):
+    for mode in ("custom-format", "explicit-validator", "stdin", "explicit-validator-d4-schema", "explicit-validator-other-dialect"):
         for n in ((1, 2) if mode != "stdin" else (1,)):
             tags = ["exit0", "exit1"]
             out.append(dict(id="run/%s/n%d" % (mode, n), module=__name__, factory="run",
-                            params=dict(schema_state=5 if mode.endswith("d4-schema") else 3, n=n, pretty=False, mode=mode), timeout=600,
+                            params=dict(schema_state=5 if mode.endswith("d4-schema") else (6 if mode.endswith("other-dialect") else 3), n=n, pretty=False, mode=mode), timeout=600,
                             tags=tags, witness=tags))
     out.append(dict(id="parse_args", module=__name__, factory="parse_rules", params={}, timeout=300, tags=["parsed", "usage-error"], witness=["parsed"]))
     return out
